@@ -397,7 +397,7 @@ fn probe_new(page: &mut Page) -> Result<(), Fault> {
     Ok(())
 }
 
-fn check(h: &PageHistory, rec: &mut CaseRec) -> Verdict {
+pub fn check(h: &PageHistory, rec: &mut CaseRec) -> Verdict {
     CONT_ERR.with(|c| c.set(false));
     let run = || -> Result<(Page, u32, u32, u32), Fault> {
         let mut page = Page::new(h.seed)?;
@@ -527,7 +527,7 @@ pub fn property() -> Property {
             "the transliteration is a trusted model of the page script (TypeScript cannot be built or run in this sandbox); a change to main.ts alone is invisible (its SHA-256 is recorded in the evidence)",
             "traps are observed as native panics of the same Rust code, not in a WASM build",
         ],
-        fuzz: None,
+        fuzz: Some(FuzzSpec { target: "c19_page", runs: 150_000, max_len: 1024, verdict: crate::fuzz::c19_verdict }),
         families,
         prelude: None,
         epilogue: Some(Box::new(|_, rec| {
